@@ -53,6 +53,7 @@ var c11d11bFuncs = []c11d11bFn{
 	{"mul", "MultiplyFunc", stdlib.MultiplyFunc},
 	{"div", "DivideFunc", stdlib.DivideFunc},
 	{"mod", "ModuloFunc", stdlib.ModuloFunc},
+	{"assertnotnull", "AssertNotNullFunc", stdlib.AssertNotNullFunc},
 }
 
 func c11D11bInvoke(f function.Function, args []cty.Value) c13Res {
@@ -85,7 +86,7 @@ func c11D11bCase(ctx *Ctx, e c11d11bFn, args []cty.Value) {
 }
 
 func c11D11bCorrespondence(ctx *Ctx) {
-	per := ctx.N(300, 4000)
+	per := ctx.N(300, 2500)
 	for _, e := range c11d11bFuncs {
 		ps := e.f.Params()
 		vp := e.f.VarParam()
@@ -130,7 +131,7 @@ func c11D11bCorrespondence(ctx *Ctx) {
 		perFn := per
 		if e.model == "range" {
 			// a long progression costs the MODEL a thousand big-float additions on a list it appends to: fewer cases
-			perFn = ctx.N(25, 150)
+			perFn = ctx.N(25, 100)
 		}
 		for k := 0; k < perFn; k++ {
 			n := len(ps)
@@ -163,7 +164,7 @@ func c11D11bCorrespondence(ctx *Ctx) {
 // log / pow (D11b.mathTable): the math library's float64 answer on the two arguments, when both are known
 // numbers, is the oracle column
 func c11D11bMathCorrespondence(ctx *Ctx) {
-	per := ctx.N(300, 4000)
+	per := ctx.N(300, 2500)
 	for _, e := range []struct {
 		c11d11bFn
 		ref func(a, b float64) float64
@@ -345,7 +346,7 @@ func c11D11bOracle(model string, args []cty.Value) *oracle {
 }
 
 func c11D11bGlueCorrespondence(ctx *Ctx) {
-	per := ctx.N(250, 2500)
+	per := ctx.N(250, 1500)
 	for _, e := range c11d11bGlue {
 		ps := e.f.Params()
 		fn := c11Fn{e.goVar, e.f, true}
